@@ -227,6 +227,15 @@ pub fn check_rules(model: &mut Model, r: &mut Report, modelled: &[String], progr
                 }
             }
         }
+        if fired && *rule == "remove_nil_declaration" {
+            let a = model.ask(&format!("c01.ndguard {}", sexp0));
+            r.hist("remove_nil_declaration: inside H of the whole-rule theorem", &a);
+        }
+        if fired && *rule == "remove_unused_variable" {
+            // hypothesis H of rule_refines_remove_unused_variable_partial (guarded rule == rule), for the coverage record
+            let a = model.ask(&format!("c01.uvguard {}", sexp0));
+            r.hist("remove_unused_variable: inside H of the whole-rule theorem", &a);
+        }
         if fired {
             r.hist("rule_fired", rule);
             r.hist(&format!("fired_by_origin:{}", program.origin), rule);
